@@ -98,11 +98,14 @@ def _return_accumulator(fi):
     names = []
     for n in walk_local(fi.node):
         if isinstance(n, ast.Return) and n.value is not None:
-            v = n.value
-            if isinstance(v, ast.Tuple) and v.elts:
-                v = v.elts[0]
-            if isinstance(v, ast.Name):
-                names.append(v.id)
+            vs = [n.value]
+            if isinstance(n.value, ast.IfExp):
+                vs = [n.value.body, n.value.orelse]
+            for v in vs:
+                if isinstance(v, ast.Tuple) and v.elts:
+                    v = v.elts[0]
+                if isinstance(v, ast.Name):
+                    names.append(v.id)
     names = set(names)
     return names.pop() if len(names) == 1 else None
 
